@@ -20,7 +20,7 @@ type Transpiler struct {
 	dropMetric         bool
 	duplicateResult    bool
 	minT, maxT         int64
-	timeCondition      influxql.Expr
+	timeCondition      influxql.Expr // no longer used: the time range is computed per statement
 	isStepVariantExpr  bool
 	upperSubquery      int
 	subStartT, subEndT int64
@@ -122,34 +122,32 @@ func (t *Transpiler) setTimeInterval(statement *influxql.SelectStatement) {
 
 // setTimeCondition sets time range and timezone condition in InfluxQL WHERE clause
 func (t *Transpiler) setTimeCondition(node influxql.Statement, ignoreLookBack bool) {
-	if t.timeCondition == nil {
-		// Get the offset from the query
-		var offset time.Duration
-		if n, ok := node.(*influxql.SelectStatement); ok {
-			offset = n.QueryOffset
-		}
-		// Calculate the start and end times
-		var start, end time.Time
-		if ignoreLookBack {
-			start = timestamp.Time(t.minT - durationMilliseconds(offset))
-		} else {
-			if t.timeRange == 0 {
-				start = timestamp.Time(t.minT - t.LookBackDelta.Milliseconds() - durationMilliseconds(offset))
-			} else {
-				start = timestamp.Time(t.minT - t.timeRange.Milliseconds() - durationMilliseconds(offset))
-			}
-		}
-		end = timestamp.Time(t.maxT - durationMilliseconds(offset))
-		// Generate the time condition
-		t.timeCondition = GetTimeCondition(&start, &end)
+	// The time range of a statement depends on the offset of the selector below it, so it is
+	// computed for every statement: operands of one expression may have different offsets.
+	var offset time.Duration
+	if n, ok := node.(*influxql.SelectStatement); ok {
+		offset = n.QueryOffset
 	}
+	// Calculate the start and end times
+	var start, end time.Time
+	if ignoreLookBack {
+		start = timestamp.Time(t.minT - durationMilliseconds(offset))
+	} else {
+		if t.timeRange == 0 {
+			start = timestamp.Time(t.minT - t.LookBackDelta.Milliseconds() - durationMilliseconds(offset))
+		} else {
+			start = timestamp.Time(t.minT - t.timeRange.Milliseconds() - durationMilliseconds(offset))
+		}
+	}
+	end = timestamp.Time(t.maxT - durationMilliseconds(offset))
+	timeCondition := GetTimeCondition(&start, &end)
 	switch statement := node.(type) {
 	case *influxql.SelectStatement:
-		statement.Condition = CombineConditionAnd(statement.Condition, t.timeCondition)
+		statement.Condition = CombineConditionAnd(statement.Condition, timeCondition)
 		statement.LookBackDelta = t.LookBackDelta
 		statement.Location = t.Timezone
 	case *influxql.ShowTagValuesStatement:
-		statement.Condition = CombineConditionAnd(statement.Condition, t.timeCondition)
+		statement.Condition = CombineConditionAnd(statement.Condition, timeCondition)
 	default:
 		// Handle other types of statements
 	}
